@@ -58,6 +58,10 @@ PROGRAMS = [
     "def deco(f):\n    return f\n@deco\nclass D:\n    @deco\n    def m(self): pass\n",
     "r = a[1:2, ::3]\na[0] = b.c.d\ndel a[0]\n", "x = a @ b // c ** d << e >> f & g | h ^ i\n",
     "def k(a, /, b, *, c):\n    return locals()\n", "e = ...\nn = not a is b\nm = a not in b\n",
+    # constants shared between code objects (the compiler writes them once with FLAG_REF and refers back to them)
+    "def a(code):\n    return code in {1, 2, 75}\ndef b(err):\n    if err.code in {1, 2, 75}:\n        return 'retry'\n    return err.code == 2 or 'again'\n",
+    "def p():\n    return (1, 2.5, 'x', b'y', None), 2.5, 'x', 10**30\ndef q():\n    return (1, 2.5, 'x', b'y', None), b'y', 1, 10**30, -(10**30)\n",
+    "def r(v):\n    return v in ('k', 'l', ('k', 'l')) or v in {'k', 'l'}\ndef s(v):\n    return v in {'k', 'l'}, ('k', 'l'), 'l'\n",
     "a = 1\n" + "\n" * 200 + "b = 2\n" + "\n" * 400 + "c = 3\n",          # line deltas that do not fit one signed byte
     "while a:\n" + "\n" * 300 + "    a -= 1\n" + "\n" * 140 + "z = a\n",    # ... forward and backward
     "def many():\n" + "".join("    v%d = %d\n" % (i, i) for i in range(300)) + "    return v299\n",
